@@ -289,7 +289,8 @@ def real_table(case):
              "rt=" + o["rt"].replace(" ", "_"), "cl=" + o["cl"].replace(" ", "_"), "unk=" + o["unk"],
              "guards=" + ",".join(o["guards"]),
              "fit=" + ("skip" if o["fit"] is None else (",".join(o["fit"]) or "-")),
-             "ret=" + o["ret"], "fitted=" + o["fitted"]]
+             "ret=" + o["ret"], "fitted=" + o["fitted"],
+             "touch=" + (",".join(t.replace(" ", "_").replace(",", ";") for t in (o.get("touch") or [])) or "-")]
     return " ".join(parts)
 
 
@@ -457,6 +458,10 @@ def oracle_table(case, real):
                           "fit of %s assigns constructor parameter %s (table: %s, observed: %s)" % (
                               cname, p, "assigned" if p in st["fitw"] else "-", d_tok)))
     if dyn:
+        for t in _lst(r.get("touch", "-")):
+            meth, _, where = t.partition(":")
+            fails.append(("%s:%s-touches-given-object:%s" % (cname, meth, where),
+                          "%s.%s changes the state of an object passed to the constructor: %s" % (cname, meth, where)))
         if r["ret"] not in ("self", "skip"):
             fails.append(("%s:fit-returns:%s" % (cname, r["ret"]), "%s.fit returned %s" % (cname, r["ret"])))
         if r["fitted"] not in ("T", "skip"):
